@@ -399,9 +399,8 @@ func (v *View) Towards(ctx context.Context, fromBlockRoot common.Root, toSlot co
 	if b.Slot > toSlot {
 		return nil, fmt.Errorf("block %s at slot %d is past the requested slot %d", fromBlockRoot, b.Slot, toSlot)
 	}
-	if err := ctx.Err(); err != nil {
-		return nil, err
-	}
+	// the mock answers at once: the caller's catch-up deadline is not consulted (a loaded test
+	// machine must not turn into IGNORE verdicts)
 	return v.entryAt(b, toSlot)
 }
 
